@@ -413,6 +413,9 @@ class Machine:
             elif op == "late_inv":
                 name = None
                 self._late_inv(step)
+            elif op == "clone":
+                name = None
+                self._clone(step)
             else:
                 raise core.HarnessError("unknown step " + op)
         except (core.HarnessError, core.Abort):
@@ -421,6 +424,18 @@ class Machine:
             exc = e
             name = None
         return name, exc, self.announced[before:]
+
+    def _clone(self, step):
+        """Re-create a class from its own namespace through its metaclass (what ``dataclasses.dataclass(slots=True)`` and
+        ``attr.s(slots=True)`` do); the original stays in use."""
+        old = self.world.classes[step["of"]]
+        ns = dict(old.__dict__)
+        ns.pop("__dict__", None)
+        ns.pop("__weakref__", None)
+        new = self.ctx.run(type(old), old.__name__, old.__bases__, ns)
+        self.world.classes[step["name"]] = new
+        self.world.cspec[step["name"]] = dict(self.world.cspec[step["of"]], name=step["name"], clone_of=step["of"], methods=[], invs=[])
+        return new
 
     def _late_inv(self, step):
         """Apply the invariant decorator to a class that already exists (and may already have subclasses)."""
